@@ -56,7 +56,7 @@ def _do_parse(fs: simfs.SimFS, op: dict[str, Any], data: bytes, name: str,
         name = stored_name(op, name)
     tape = dict(op.get("io") or {}) if faults else {}
     if op.get("via") == "path":
-        p = fs.put(name + ".chart", data)
+        p = fs.put(name + ".chart", data, special=bool(op.get("special_file")) and faults)
         fs.queue_tape(p, tape)
         path_obj: Any = pathlib.Path(p) if not op.get("str_path") else p
         if selp is None:
